@@ -505,7 +505,7 @@ pub fn gen_problem(r: &mut Sm, spec: &Spec, host: Hostility) -> Problem {
     let mut infeasible = None;
     let coords = slab_coords(spec);
 
-    let mut add_random_obstacles = |r: &mut Sm, world: &mut World, tags: &mut Vec<String>, keep_clear: &[(&Vec<f64>, f64)]| {
+    let add_random_obstacles = |r: &mut Sm, world: &mut World, tags: &mut Vec<String>, keep_clear: &[(&Vec<f64>, f64)]| {
         let n = r.below(4);
         for _ in 0..n {
             if !coords.is_empty() && r.bool(0.5) {
